@@ -32,6 +32,19 @@ fn sut<T>(r: Result<T, SutFail>, what: &str) -> Result<T, E> {
     }
 }
 
+/// `a == b`, with `a != b` evaluated as well: the two operators must be each other's negation
+fn eq_checked(a: &dyn DynGen, b: &dyn DynGen, st: &mut Stats) -> Result<Option<bool>, E> {
+    let e = sut(guard(|| a.eq_dyn(b)), "eq")?;
+    let n = sut(guard(|| a.ne_dyn(b)), "ne")?;
+    if let (Some(e), Some(n)) = (e, n) {
+        st.count("probe:ne_evaluated");
+        if e == n {
+            return Err(E::End(viol("C10/ne_inconsistent_with_eq", format!("{}:ne", a.kind().name()), format!("{}: a == b is {} and a != b is {} for the same pair", a.kind().name(), e, n))));
+        }
+    }
+    Ok(e)
+}
+
 fn apply(g: &mut dyn DynGen, op: &Op) -> Result<Option<Out>, SutFail> {
     match op {
         Op::U32 => super::c05::do_call(g, Call::U32).map(Some),
@@ -371,7 +384,7 @@ impl C10 {
         }
         let suffix: Vec<Op> = if fork_at < spec.ops.len() { spec.ops[fork_at + 1..].to_vec() } else { vec![] };
         if spec.variant == "clone" {
-            match sut(guard(|| b.eq_dyn(a.as_ref())), "eq")? {
+            match eq_checked(b.as_ref(), a.as_ref(), st)? {
                 Some(false) => {
                     return Err(E::End(viol("C10/clone_not_equal", format!("{}:clone", kind.name()), format!("{}: clone() taken at buffer index {} (half pending {}) compares unequal to its original", kind.name(), idx, half))))
                 }
@@ -390,7 +403,7 @@ impl C10 {
         );
         sut(skew_calls(a.as_mut(), na.min(600), ka), "skew")?;
         sut(skew_calls(b.as_mut(), nb.min(600), kb), "skew")?;
-        let verdict = sut(guard(|| a.eq_dyn(b.as_ref())), "eq")?;
+        let verdict = eq_checked(a.as_ref(), b.as_ref(), st)?;
         st.sig(&[kind.id(), idx, half as u64, 1 + ka * 8 + kb, verdict.map(|v| v as u64).unwrap_or(2)]);
         match verdict {
             Some(true) => {
@@ -458,7 +471,7 @@ impl C10 {
             sut(apply(b.as_mut(), op), "prefix")?;
         }
         let suffix: Vec<Op> = if fork_at < spec.ops.len() { spec.ops[fork_at + 1..].to_vec() } else { vec![] };
-        let verdict = sut(guard(|| a.eq_dyn(b.as_ref())), "eq")?;
+        let verdict = eq_checked(a.as_ref(), b.as_ref(), st)?;
         let fresh = spec.pre == 0 && fork_at == 0;
         st.sig(&[kind.id(), fresh as u64, 0, 6, verdict.map(|v| v as u64).unwrap_or(2)]);
         match verdict {
